@@ -170,6 +170,17 @@ def run_sides(paths, d, kvrun=KVRUN, impl_env=None):
             raise Broken('kvmodel check exited %d on %s: %s' % (rc, j[2], err))
 
 
+def run_impl_only(paths, d, kvrun=KVRUN):
+    env = dict(os.environ, KV_WORK=os.path.join(d, 'dirs'))
+    os.makedirs(env['KV_WORK'], exist_ok=True)
+    jobs = [(kvrun, 'hist', p, p + '.impl', env) for p in paths]
+    with cf.ThreadPoolExecutor(NCPU) as ex:
+        res = list(ex.map(_run_one, jobs))
+    for (rc, err), j in zip(res, jobs):
+        if rc != 0:
+            raise Broken('%s exited %d on %s: %s' % (j[0], rc, j[2], err))
+
+
 def parse_out(path):
     """-> {case: [(op, [results])]}"""
     cases = {}
